@@ -22,6 +22,10 @@ var (
 
 // verifOnLock is called by the executor before a Lock on a mutex this call has locked before.
 func verifOnLock() {
+	if verifGmeArmed {
+		verifOnLockGme()
+		return
+	}
 	if !verifGrowArmed || verifGrowBudget == 0 {
 		return
 	}
@@ -44,6 +48,17 @@ func verifLock(mu sync.Locker) {
 	mu.Lock()
 }
 
+// verifRLock replaces X.mu.RLock() in native replays.
+func verifRLock(mu *sync.RWMutex) {
+	if verifGmeArmed && mu == &verifGme.mu {
+		verifGmeLocks++
+		if verifGmeLocks >= 2 {
+			verifOnLock()
+		}
+	}
+	mu.RLock()
+}
+
 // C03(d): the number of pool channels never exceeds maxSize (minSize <= maxSize).
 func VerifH_grow() {
 	w := verifMkWorld()
@@ -57,6 +72,7 @@ func VerifH_grow() {
 	verifGrowBudget = verifCase("interference")
 	verifKnown("F-max", verifGrowBudget >= 1)
 	ctx := &verifCtx{}
+	verifResetLocks()
 	verifGrowArmed = true
 	w.pk.Pick(balancer.PickInfo{FullMethodName: "/plain", Ctx: ctx})
 	verifGrowArmed = false
